@@ -56,7 +56,9 @@ def sym_tags_of(prog: dict) -> dict[Any, str]:
 
 
 def build_rank(prog: dict, r: int) -> tuple[Any, list[Any]]:
-    """-> (DictOfNamedArrays, list of node arrays)"""
+    """-> (DictOfNamedArrays, list of node arrays).  Structurally equal nodes
+    are built once (hash-consing on the construction steps), because pytato
+    treats equal arrays as one node and its mappers insist on that."""
     import pytato as pt
     from pytato.tags import ImplStored
 
@@ -64,29 +66,51 @@ def build_rank(prog: dict, r: int) -> tuple[Any, list[Any]]:
     kind = prog.get("tagkind", "str")
     rk = prog["ranks"][r]
     arrs: list[Any] = []
+    memo: dict[tuple, Any] = {}
+
+    def cons(key: tuple, make: Callable[[], Any]) -> Any:
+        if key not in memo:
+            memo[key] = make()
+        return memo[key]
+
     for i, nd in enumerate(rk["nodes"]):
         k = nd["k"]
         if k == "in":
-            a = pt.make_placeholder(nd["name"], tuple(nd.get("shape", SHAPE)), DTYPE)
+            shape = tuple(nd.get("shape", SHAPE))
+            a = cons(("in", nd["name"], shape),
+                     lambda: pt.make_placeholder(nd["name"], shape, DTYPE))
         elif k == "recv":
-            tags = frozenset()
-            if nd.get("v"):
-                tags = frozenset({usertags.BazTag(int(nd["v"]))})
-            a = pt.make_distributed_recv(
-                src_rank=nd["src"], comm_tag=disttags.sym_tag(kind, nd["tag"]),
-                shape=tuple(nd.get("shape", SHAPE)), dtype=DTYPE, tags=tags)
+            shape = tuple(nd.get("shape", SHAPE))
+
+            def mk_recv() -> Any:
+                tags = frozenset({usertags.BazTag(int(nd["v"]))}) if nd.get("v") \
+                    else frozenset()
+                return pt.make_distributed_recv(
+                    src_rank=nd["src"], comm_tag=disttags.sym_tag(kind, nd["tag"]),
+                    shape=shape, dtype=DTYPE, tags=tags)
+            a = cons(("recv", nd["src"], nd["tag"], nd.get("v", 0), shape), mk_recv)
         elif k == "op":
-            a = coef(r, i, 0)
+            c0 = coef(r, i, 0)
+            a = None
             for pos, j in enumerate(nd["args"]):
-                a = a + coef(r, i, pos + 1) * arrs[j]
-            if not nd["args"]:
-                a = pt.zeros(SHAPE, DTYPE) + a
+                c, arg, acc = coef(r, i, pos + 1), arrs[j], a
+                term = cons(("mul", c, id(arg)), lambda: c * arg)
+                if acc is None:
+                    a = cons(("add0", c0, id(term)), lambda: c0 + term)
+                else:
+                    a = cons(("add", id(acc), id(term)), lambda: acc + term)
+            if a is None:
+                z = cons(("zeros",), lambda: pt.zeros(SHAPE, DTYPE))
+                a = cons(("add0", c0, id(z)), lambda: z + c0)
             if nd.get("st"):
-                a = a.tagged(ImplStored())
+                plain = a
+                a = cons(("stored", id(plain)), lambda: plain.tagged(ImplStored()))
         elif k == "hold":
-            a = pt.staple_distributed_send(
-                arrs[nd["data"]], dest_rank=nd["dst"],
-                comm_tag=disttags.sym_tag(kind, nd["tag"]), stapled_to=arrs[nd["pass"]])
+            data, pas = arrs[nd["data"]], arrs[nd["pass"]]
+            a = cons(("hold", id(data), nd["dst"], nd["tag"], id(pas)),
+                     lambda: pt.staple_distributed_send(
+                         data, dest_rank=nd["dst"],
+                         comm_tag=disttags.sym_tag(kind, nd["tag"]), stapled_to=pas))
         else:
             raise MachineryError(f"unknown node kind {k}")
         arrs.append(a)
@@ -337,57 +361,100 @@ class Pipeline:
     prog: dict
     dags: list[Any]
     inputs: list[dict[str, np.ndarray]]
-    status: list[dict]                # per rank: {"status", "stage", "exc", "msg", "reason"}
+    find: list[dict]                  # per rank: {"status", "exc", "msg", "reason", "documented"}
+    verify: list[dict]                # (empty dicts if the stage was not reached)
+    number: list[dict]
     sym: list[Any]                    # partition with symbolic tags (or None)
     num: list[Any]                    # partition after number_distributed_tags (or None)
     next_tag: list[Any]
     anomalies: list[dict]
+    base_tag: int = 42
+
+    @property
+    def partitioned(self) -> bool:
+        """every rank came out of find_distributed_partition with a partition"""
+        return all(s.get("status") == "ok" for s in self.find)
 
     @property
     def all_ok(self) -> bool:
-        return all(s["status"] == "ok" for s in self.status)
+        return all(s.get("status") == "ok" for st in (self.find, self.verify, self.number)
+                   for s in st)
 
-    def raisers(self) -> list[int]:
-        return [r for r, s in enumerate(self.status) if s["status"] == "raised"]
+    def stages(self) -> dict[str, list[dict]]:
+        return {"find": self.find, "verify": self.verify, "number": self.number}
+
+    def summary(self) -> list[str]:
+        out = []
+        for r in range(self.prog["nranks"]):
+            bits = []
+            for nm, st in self.stages().items():
+                s = st[r]
+                if not s:
+                    continue
+                if s["status"] == "ok":
+                    bits.append(f"{nm}:ok")
+                elif s["status"] == "raised":
+                    bits.append(f"{nm}:{s['exc']}")
+                else:
+                    bits.append(f"{nm}:{s['status']}({s['reason']})")
+            out.append(" ".join(bits))
+        return out
+
+
+def _stage(world_results: list[Any]) -> list[dict]:
+    return [{"status": rr.status, "exc": rr.exc_name,
+             "msg": str(rr.exc)[:200] if rr.exc is not None else "",
+             "reason": rr.reason, "documented": rr.exc_name in DOCUMENTED}
+            for rr in world_results]
 
 
 def run_pipeline(prog: dict, seed: int = 0, base_tag: int = 42,
-                 shuffle_reduce: bool = True, verify: bool = True) -> Pipeline:
+                 shuffle_reduce: bool = True) -> Pipeline:
+    """find_distributed_partition -> verify_distributed_partition ->
+    number_distributed_tags on all ranks.  Each stage runs in its own
+    simulated world, so that a rejection by verify (which raises on the root
+    only) does not keep the harness from numbering and exporting what
+    find_distributed_partition returned."""
     fakempi.install()
     from pytato.distributed.partition import find_distributed_partition
     from pytato.distributed.tags import number_distributed_tags
     from pytato.distributed.verify import verify_distributed_partition
     n = prog["nranks"]
-    built = [build_rank(prog, r) for r in range(n)]
-    dags = [b[0] for b in built]
-    stage = ["build"] * n
+    dags = [build_rank(prog, r)[0] for r in range(n)]
     sym: list[Any] = [None] * n
     num: list[Any] = [None] * n
     nxt: list[Any] = [None] * n
+    anomalies: list[dict] = []
 
-    def body(r: int) -> Callable:
+    def find(r: int) -> Callable:
         def f(comm: Any) -> None:
-            stage[r] = "find"
-            p = find_distributed_partition(comm, dags[r])
-            sym[r] = p
-            if verify:
-                stage[r] = "verify"
-                verify_distributed_partition(comm, p)
-            stage[r] = "number"
-            num[r], nxt[r] = number_distributed_tags(comm, p, base_tag=base_tag)
-            stage[r] = "done"
+            sym[r] = find_distributed_partition(comm, dags[r])
         return f
 
-    world = fakempi.World(n, seed=seed, shuffle_reduce=shuffle_reduce)
-    res = world.run([body(r) for r in range(n)])
-    status = []
-    for r, rr in enumerate(res):
-        status.append({"status": rr.status, "stage": stage[r], "exc": rr.exc_name,
-                       "msg": str(rr.exc)[:200] if rr.exc is not None else "",
-                       "reason": rr.reason,
-                       "documented": rr.exc_name in DOCUMENTED})
-    return Pipeline(prog, dags, make_inputs(prog, seed), status, sym, num, nxt,
-                    world.anomalies)
+    def verify(r: int) -> Callable:
+        def f(comm: Any) -> None:
+            verify_distributed_partition(comm, sym[r])
+        return f
+
+    def number(r: int) -> Callable:
+        def f(comm: Any) -> None:
+            num[r], nxt[r] = number_distributed_tags(comm, sym[r], base_tag=base_tag)
+        return f
+
+    def stage(fn: Callable) -> list[dict]:
+        world = fakempi.World(n, seed=seed, shuffle_reduce=shuffle_reduce)
+        res = _stage(world.run([fn(r) for r in range(n)]))
+        anomalies.extend(world.anomalies)
+        return res
+
+    st_find = stage(find)
+    st_verify: list[dict] = [{} for _ in range(n)]
+    st_number: list[dict] = [{} for _ in range(n)]
+    if all(s["status"] == "ok" for s in st_find):
+        st_verify = stage(verify)
+        st_number = stage(number)
+    return Pipeline(prog, dags, make_inputs(prog, seed), st_find, st_verify, st_number,
+                    sym, num, nxt, anomalies, base_tag)
 
 
 # --------------------------------------------------------------------------
@@ -444,13 +511,85 @@ def _tagtok(tokens: dict[Any, str], tag: Any) -> str:
         return "?" + repr(tag)
 
 
+def _inttag(t: Any) -> int:
+    return int(t) if isinstance(t, (int, np.integer)) and not isinstance(t, bool) else -1
+
+
+def export_rank_struct(prog: dict, r: int, dag: Any, ps: Any, pn: Any, next_tag: Any,
+                       userin: list[str]) -> tuple[dict, dict[str, tuple]]:
+    """Structure of one rank's partition (no values): -> (record, {received
+    name: (src, dst, symbolic tag object)}).  ps / pn: the partition before /
+    after number_distributed_tags (matched positionally)."""
+    tokens = sym_tags_of(prog)
+    pids = list(pn.parts)
+    pidx = {pid: i for i, pid in enumerate(pids)}
+    parts, posted = [], []
+    recv_sym: dict[str, tuple] = {}
+    if list(ps.parts) != pids:
+        raise MachineryError("numbering changed the part ids")
+    for pid in pids:
+        part, spart = pn.parts[pid], ps.parts[pid]
+        if part.pid != pid:
+            raise MachineryError("pid differs from key")
+        recvs, sends = [], []
+        if list(part.name_to_recv_node) != list(spart.name_to_recv_node) or \
+                list(part.name_to_send_nodes) != list(spart.name_to_send_nodes):
+            raise MachineryError("numbering changed the names of a part")
+        for nm, rv in part.name_to_recv_node.items():
+            srv = spart.name_to_recv_node[nm]
+            recvs.append({"name": nm, "src": int(rv.src_rank), "tag": _inttag(rv.comm_tag),
+                          "sym": _tagtok(tokens, srv.comm_tag),
+                          "shape": [int(d) for d in rv.shape], "dtype": rv.dtype.str})
+            recv_sym[nm] = (int(rv.src_rank), r, srv.comm_tag)
+            posted.append(recvs[-1])
+        for nm, sns in part.name_to_send_nodes.items():
+            ssns = spart.name_to_send_nodes[nm]
+            for sn, ssn in zip(sns, ssns, strict=True):
+                reads, ncomm = part_names_read(sn.data)
+                sends.append({"name": nm, "dst": int(sn.dest_rank), "tag": _inttag(sn.comm_tag),
+                              "sym": _tagtok(tokens, ssn.comm_tag),
+                              "reads": reads, "ncomm": ncomm,
+                              "same": bool(sn.data == pn.name_to_output.get(nm)),
+                              "shape": [int(d) for d in sn.data.shape],
+                              "dtype": sn.data.dtype.str})
+        exprs = {}
+        for nm in sorted(part.output_names):
+            if nm in pn.name_to_output:
+                reads, ncomm = part_names_read(pn.name_to_output[nm])
+                exprs[nm] = {"reads": reads, "ncomm": ncomm}
+        parts.append({
+            "pid": pidx[pid], "needed": sorted(pidx[q] if q in pidx else -1
+                                               for q in part.needed_pids),
+            "user_in": sorted(part.user_input_names),
+            "part_in": sorted(part.partition_input_names),
+            "ins": sorted(part.all_input_names()),
+            "outs": sorted(part.output_names),
+            "recvs": recvs, "sends": sends, "exprs": exprs})
+    # which stored expressions can be evaluated from defined names (structural)
+    defined = set(userin) | set(recv_sym)
+    reads_of = {nm: part_names_read(e)[0] for nm, e in pn.name_to_output.items()}
+    todo = set(reads_of)
+    progress = True
+    while todo and progress:
+        progress = False
+        for nm in sorted(todo):
+            if set(reads_of[nm]) <= defined:
+                defined.add(nm)
+                todo.discard(nm)
+                progress = True
+    rec = {"rank": r, "parts": parts, "posted": posted, "userin": list(userin),
+           "overall": list(pn.overall_output_names), "outnames": list(dag),
+           "known": sorted(pn.name_to_output), "exp": {}, "gout": {},
+           "undefined": sorted(todo), "next_tag": _inttag(next_tag)}
+    return rec, recv_sym
+
+
 def export_instance(pl: Pipeline, vt: ValueTable | None = None) -> dict:
     """The partitions of all ranks as one JSON-able record (small ints and
     strings only) + the expected values (ids) of every name: what the
     unpartitioned global graph assigns to received names and overall outputs,
     and what each part expression gives in that context."""
     prog = pl.prog
-    tokens = sym_tags_of(prog)
     vt = vt or ValueTable()
     try:
         gouts, gmsgs = global_reference(pl.dags, pl.inputs)
@@ -458,60 +597,21 @@ def export_instance(pl: Pipeline, vt: ValueTable | None = None) -> dict:
     except Malformed as ex:
         gouts, gmsgs, gerr = None, {}, str(ex)
     inst: dict[str, Any] = {"id": prog["id"], "n": prog["nranks"], "ranks": [],
-                            "global_ok": gouts is not None, "global_err": gerr}
+                            "global_ok": gouts is not None, "global_err": gerr,
+                            "ends": comm_skeleton(pl, prog), "base_tag": pl.base_tag,
+                            "verify": [("ok" if s.get("status") == "ok" else
+                                        (s.get("exc") or s.get("status", "?")))
+                                       for s in pl.verify]}
     for r in range(prog["nranks"]):
         ps, pn = pl.sym[r], pl.num[r]
         if pn is None:
             raise MachineryError("export_instance needs a partition on every rank")
-        pids = list(pn.parts)
-        pidx = {pid: i for i, pid in enumerate(pids)}
         userin = sorted(pl.inputs[r])
         for nm in userin:
             vt.add(pl.inputs[r][nm])
-        parts, posted = [], []
-        recv_sym: dict[str, tuple] = {}
-        for pid in pids:
-            part, spart = pn.parts[pid], ps.parts[pid]
-            if part.pid != pid:
-                raise MachineryError("pid differs from key")
-            recvs, sends = [], []
-            for nm, rv in part.name_to_recv_node.items():
-                srv = spart.name_to_recv_node[nm]
-                recvs.append({"name": nm, "src": int(rv.src_rank),
-                              "tag": rv.comm_tag if isinstance(rv.comm_tag, int)
-                              and not isinstance(rv.comm_tag, bool) else -1,
-                              "sym": _tagtok(tokens, srv.comm_tag),
-                              "shape": [int(d) for d in rv.shape], "dtype": rv.dtype.str})
-                recv_sym[nm] = (int(rv.src_rank), r, srv.comm_tag)
-                posted.append(recvs[-1])
-            for nm, sns in part.name_to_send_nodes.items():
-                ssns = spart.name_to_send_nodes[nm]
-                for sn, ssn in zip(sns, ssns, strict=True):
-                    reads, ncomm = part_names_read(sn.data)
-                    sends.append({"name": nm, "dst": int(sn.dest_rank),
-                                  "tag": sn.comm_tag if isinstance(sn.comm_tag, int)
-                                  and not isinstance(sn.comm_tag, bool) else -1,
-                                  "sym": _tagtok(tokens, ssn.comm_tag),
-                                  "reads": reads, "ncomm": ncomm,
-                                  "same": bool(sn.data == pn.name_to_output.get(nm)),
-                                  "shape": [int(d) for d in sn.data.shape],
-                                  "dtype": sn.data.dtype.str})
-            exprs = {}
-            for nm in sorted(part.output_names):
-                if nm in pn.name_to_output:
-                    reads, ncomm = part_names_read(pn.name_to_output[nm])
-                    exprs[nm] = {"reads": reads, "ncomm": ncomm}
-            parts.append({
-                "pid": pidx[pid], "needed": sorted(pidx[q] if q in pidx else -1
-                                                   for q in part.needed_pids),
-                "user_in": sorted(part.user_input_names),
-                "part_in": sorted(part.partition_input_names),
-                "ins": sorted(part.all_input_names()),
-                "outs": sorted(part.output_names),
-                "recvs": recvs, "sends": sends, "exprs": exprs})
+        rec, recv_sym = export_rank_struct(prog, r, pl.dags[r], ps, pn, pl.next_tag[r], userin)
         # expected values
         env: dict[str, np.ndarray] = dict(pl.inputs[r])
-        undefined: list[str] = []
         for nm, cid in recv_sym.items():
             if cid in gmsgs:
                 env[nm] = gmsgs[cid]
@@ -525,24 +625,13 @@ def export_instance(pl: Pipeline, vt: ValueTable | None = None) -> dict:
                     v = ref_eval({nm: pn.name_to_output[nm]}, {**env, **outvals})[nm]
                 except KeyError:
                     continue
-                # a part output never replaces the value of a received / input
-                # name for readers that the contract sends to the original
                 outvals[nm] = v
                 todo.remove(nm)
                 progress = True
-        undefined = sorted(todo)
-        exp: dict[str, int] = {}
-        for nm, v in {**env, **outvals}.items():
-            exp[nm] = vt.add(v)
-        gout = {}
+        rec["exp"] = {nm: vt.add(v) for nm, v in {**env, **outvals}.items()}
         if gouts is not None:
-            for nm, v in gouts[r].items():
-                gout[nm] = vt.add(v)
-        inst["ranks"].append({
-            "rank": r, "parts": parts, "posted": posted, "userin": userin,
-            "overall": list(pn.overall_output_names),
-            "known": sorted(pn.name_to_output), "exp": exp, "gout": gout,
-            "undefined": undefined, "next_tag": int(pl.next_tag[r])})
+            rec["gout"] = {nm: vt.add(v) for nm, v in gouts[r].items()}
+        inst["ranks"].append(rec)
     inst["values"] = len(vt.ids)
     return inst
 
